@@ -7,6 +7,7 @@ classes, column/row codecs on rendered endpoints, and the two flush functions
 import XlModel.FormulaRef
 import XlModel.Lemmas.Ref
 import XlModel.Lemmas.Ref2
+import XlModel.Lemmas.Ref3
 
 namespace XlModel.FormulaRef
 open XlModel XlModel.Ref
@@ -22,19 +23,8 @@ theorem limits : Facts.MaxColumns = 16384 ∧ Facts.MinColumns = 1 ∧ Facts.Tot
 /-! ### codecs on canonical names -/
 
 theorem colNum_numToName {n : Nat} (h1 : 1 ≤ n) (h2 : n ≤ Facts.MaxColumns) :
-    columnNameToNumber (numToName n) = .ok (n : Int) := by
-  have hM := limits
-  unfold columnNameToNumber
-  have hne : (numToName n).isEmpty = false := by
-    have := numToName_ne_nil h1
-    cases h : numToName n with
-    | nil => exact absurd h this
-    | cons _ _ => rfl
-  simp only [hne, Bool.false_eq_true, if_false, colRaw_numToName]
-  have hw : wrap64 (n : Int) = n := wrap64_small (by omega) (by omega)
-  simp only [hw]
-  have : ¬ ((n : Int) > (Facts.MaxColumns : Int)) := by omega
-  simp [this]
+    columnNameToNumber (numToName n) = .ok (n : Int) :=
+  (columnNameToNumber_ok_iff _ _).mpr ⟨numToName_ne_nil h1, n, colRaw_numToName n, h2, rfl⟩
 
 theorem colName_ofInt {i : Int} (h1 : 1 ≤ i) (h2 : i ≤ (Facts.MaxColumns : Int)) :
     columnNumberToName i = .ok (numToName i.toNat) := by
